@@ -6,7 +6,7 @@ breaks against that copy (VERIF_REPO), and require exit 1 with a VIOLATION line;
 on the unpatched copy the check must exit 0. The scratch copy and its build
 output are removed afterwards.
 
-usage: tools/mutants.py [--only SUBSTR] [--keep] [--tier quick] [--baseline]
+usage: tools/mutants.py [--only SUBSTR] [--keep] [--tier quick] [--baseline] [--refactors]
 """
 import os, sys, subprocess, shutil, glob, json, time
 
@@ -52,8 +52,17 @@ def main():
         if os.path.exists(p) and os.path.exists(m):
             meta = json.load(open(m))
             items.append(("seeded/" + os.path.basename(d), p, meta.get("caught_by") or [meta["property"]]))
+    # negative controls: behaviour-preserving refactors, every check must stay silent
+    controls = []
+    if "--refactors" in args:
+        items = []
+        for d in sorted(glob.glob(os.path.join(VERIF, "refactors", "*"))):
+            p = os.path.join(d, "refactor.patch")
+            if os.path.exists(p):
+                controls.append(("refactors/" + os.path.basename(d), p))
     if only:
         items = [it for it in items if only in it[0]]
+        controls = [c for c in controls if only in c[0]]
     repo = os.path.join(SCRATCH, "repo")
     results = []
     ok_all = True
@@ -83,6 +92,22 @@ def main():
             if status.startswith("ERROR"):
                 print(out[-1500:])
             results.append({"mutant": name, "property": prop, "status": status, "seconds": round(dt, 1)})
+    ALL = ["C01", "C02", "C03", "C05", "C07", "C08", "C09", "C11", "C12", "C13", "C14", "C15", "C18", "C19"]
+    for name, patch in controls:
+        fresh_copy(repo)
+        r = sh("patch -p1 --no-backup-if-mismatch < %s" % patch, cwd=repo)
+        if r.returncode != 0:
+            print("%-40s PATCH DOES NOT APPLY" % name)
+            ok_all = False
+            continue
+        for prop in ALL:
+            rc, out, dt = run_check(prop, repo, "mut", tier)
+            status = "SILENT" if rc == 0 else ("FALSE-ALARM" if rc == 1 else "ERROR(rc=%d)" % rc)
+            if rc != 0:
+                ok_all = False
+                print(out[-1500:])
+            print("%-40s %-5s %-12s %.0fs" % (name, prop, status, dt))
+            results.append({"control": name, "property": prop, "status": status, "seconds": round(dt, 1)})
     if "--keep" not in args:
         shutil.rmtree(SCRATCH, ignore_errors=True)
         for d in glob.glob(os.path.join(VERIF, ".build", "mut*")):
